@@ -74,7 +74,7 @@ CHECKS.update({
             "DESIGN.md 4/C18"),
     "C19": ("exploration",
             "exhaustive enumeration of token-sequence descriptions x processor prefixes through the real suggestion functions, loader and matcher; end-to-end discover->append->discover runs in forked CLI processes",
-            "Every description of <=4 tokens over a 29-token alphabet (thorough adds every 5-token description over the 18 core tokens) (regex metacharacters, quotes, backslash, store numbers, zip codes, state codes, long tokens, non-ASCII incl. characters whose upper-case form is longer) "
+            "Every description of <=4 tokens over a 30-token alphabet (thorough adds every 5-token description over the 18 core tokens) (regex metacharacters, quotes, backslash, store numbers, zip codes, state codes, long tokens, non-ASCII incl. characters whose upper-case form is longer) "
             "x 6 prefixes: the suggested rule must load and, with a category filled in, match that description; 18/54 end-to-end budgets must end with an empty Unknown list.",
             "placeholders CATEGORY/SUBCATEGORY replaced textually; alphabet-bounded",
             "DESIGN.md 4/C19"),
